@@ -5,7 +5,7 @@ src=open(f).read().split('\n')
 tmp='/verif/coq/theories/Proofs/Dbg_tmp.v'
 open(tmp,'w').write('\n'.join(src[:line])+'\nShow.\nAbort.\n')
 r=subprocess.run(['coqc','-noglob','-Q','/verif/coq/theories','Breadlog',tmp],capture_output=True,text=True)
-print((r.stdout+r.stderr)[-int(sys.argv[3]) if len(sys.argv)>3 else -3000:])
+out=r.stdout+r.stderr; i=out.rfind("============================"); n=int(sys.argv[3]) if len(sys.argv)>3 else 3000; print(out[max(0,i-n):i+n] if "-h" not in sys.argv else out[:n])
 import os
 for e in ('.vo','.vok','.vos','.glob'):
     try: os.remove(tmp[:-2]+e)
